@@ -69,6 +69,8 @@ MARKUP_CFGS = [
     ('novars', {'variables': {}, 'snippets': USER_MARKUP_SNIPPETS}),
     ('max1', {'maxRepeat': 1, 'text': ['p', 'q', 'r']}),
     ('unknown-syntax', {'syntax': 'nosuch', 'options': {'output.format': False}}),
+    ('text-url', {'text': ['http://emmet.io [1]', 'www.x.y]', '//a.b [c', 'mailto:a@b', 'a@b.c', 'http://[::1', 'ftp://x/[y]', 'https://u:p@h:99999/', 'HTTP://É.x', 'x:y', '://', 'http://a b', '[', ']']}),
+    ('text-url-str', {'text': 'http://emmet.io [1]', 'options': {'markup.href': True}}),
     ('strict-callbacks', {'options': dict(STRICT)}),
     ('strict-callbacks-pug', {'syntax': 'pug', 'options': dict(STRICT, **CMT), 'snippets': USER_MARKUP_SNIPPETS}),
 ]
@@ -91,7 +93,7 @@ CSS_CFGS = [
     ('sloppy-user-snippets', {'type': 'stylesheet', 'snippets': SLOPPY_CSS_SNIPPETS}),
 ]
 # syntax names must be complete: every known syntax appears in at least one configuration
-ENUM_MARKUP = ['html', 'jsx', 'text-list', 'text-str', 'text-empty', 'bem-ctx', 'comment', 'pug', 'haml', 'xsl', 'vue', 'novars', 'max1']
+ENUM_MARKUP = ['text-url', 'html', 'jsx', 'text-list', 'text-str', 'text-empty', 'bem-ctx', 'comment', 'pug', 'haml', 'xsl', 'vue', 'novars', 'max1']
 ENUM_CSS = ['css', 'stylus', 'value-ctx', 'section-ctx', 'json', 'noskip', 'user-snippets', 'strict-callbacks']
 
 
@@ -197,7 +199,7 @@ def mutations(s, chars, rng, k):
     return out
 
 
-SEEDS_M = ['ul#nav>li.item$*4>a{Item $}', 'div>p{a ${1:foo} b}+span[title="x y" data-a=b]', '(a>b)*2+c^d', 'a[href=${1} title]', 'lorem10*3',
+SEEDS_M = ['a', 'ul>li*>a', 'p>a*', 'a*', 'a[href]', 'x>a:link*', 'ul#nav>li.item$*4>a{Item $}', 'div>p{a ${1:foo} b}+span[title="x y" data-a=b]', '(a>b)*2+c^d', 'a[href=${1} title]', 'lorem10*3',
            'ul>lorem5-10', '!', 'doc', 'input:t', 'a:link', 'table>.row>.col*2', 'p{$#}*', 'a[b=$#]*', 'x[a.]>y[!b]', 'Foo.Bar.Baz', 'div..x',
            'label>input', 'select>opt*2', 'c>p', 'cc:ie', 'div.b_m>.-e_m2', 'ul>li.-a', '{${lang}}', 'a{${foo}}', 'a[b=${bar}]', 'xsl', 'vare>x',
            'tm', 'div#a.b>p#c', 'a*', 'ri:a', 'html:4t', 'p>{text}+{more ${0}}', 'a/>b', 'br/*2', '$$$@-3*2', 'a$@^*2>b$@^^*2', 'vs>vt+vr',
